@@ -162,3 +162,24 @@ chk(Check('C16', 'fault_enumeration', ['stop_enum', 'cancel_enum'],
           {'c16_stops': {'quick': 250, 'thorough': 8000}, 'c16_runloop_cancels': {'quick': 80, 'thorough': 3000}},
           'base programs (backlog, sleeping / inline-awaiting / sync-busy handlers, handlers dispatching late, a second bus awaiting afterwards) are run once to collect every distinct virtual instant; stop(timeout in {None,0,0.05,0.3}) or cancellation of the bus run-loop task is then placed at every instant -eps/+eps and midpoints; stop must return within timeout+0.1 s(+blocking user code), no handler of that bus may start after it returned, a cancelled run loop must finish within 1 virtual s',
           'offline checker over stop call/return and handler entry records with complete enumeration of fault instants per base program', [A_VT, A_OBS, A_GEN, 'enumeration is complete per base program, base programs are sampled']))
+
+from .c12 import C12Family
+
+fam(C12Family())
+chk(Check('C12', 'exploration', ['typed_results'],
+          {'c12_typed': {'quick': 1200, 'thorough': 25000}, 'c12_typed_nonclass': {'quick': 250, 'thorough': 5000}, 'c12_accessor_calls': {'quick': 20000, 'thorough': 400000}},
+          'typed results: 24 declared result types (builtins, containers, unions/Optional/Literal, pydantic models, nested) declared three ways (event_result_type kwarg, BaseEvent[T] generic parameter, class field) x generated returned values (conforming, coercible, nearly-conforming, None, exception objects, events), each driven through a real bus; accessors: generated result multisets (0-5 handlers: values, None, dicts, lists, raising, returned exceptions, forwarded events, duplicate names) x all 8 flag combinations x include refinements x 7 accessors; distinct = distinct (type,value,how) / outcome lists',
+          'reference-model differential on the real bus: pydantic TypeAdapter as referee for typed results (lax validate = expected outcome, strict validate of the stored value), 60-line reference implementation of the accessors written from the README', [A_VT, 'include predicates only refine the default filter (the library asserts on predicates that admit None/error results)', 'pydantic lax validation is the documented coercion semantics']))
+
+from .c19 import RetryFamily, SemFamily
+
+fam(RetryFamily())
+fam(SemFamily())
+chk(Check('C19', 'fault_enumeration', ['retry_timetable'],
+          {'c19_cases': {'quick': 3000, 'thorough': 40000}, 'c19_attempts_checked': {'quick': 3000, 'thorough': 40000}, 'c19_cancellations': {'quick': 1500, 'thorough': 30000}},
+          'EXHAUSTIVE per-attempt outcome sequences over {success, listed exception (incl. subclass), unlisted exception, overrun} for retries 0..3 (prefix-closed) x parameter grid (wait, backoff_factor incl. <1, timeout, retry_on None/tuple) [quick: 4 grid points, thorough: 18]; random large cases (retries<=7); caller cancellation at every instant +-1e-4 and midpoints of the reference timetable; each case: call instants, count, returned value / raised exception identity and instant compared with a reference timetable in exact virtual time (1e-9)',
+          'reference-model differential in exact virtual time (retry timetable) with exhaustive small-scope enumeration of outcome sequences and enumerated cancellation instants', [A_VT, 'timer jitter off for exact arithmetic', 'attempt durations never tie with the per-attempt timeout']))
+chk(Check('C20', 'fault_enumeration', ['retry_semaphore'],
+          {'c20_callers_checked': {'quick': 8000, 'thorough': 150000}, 'c20_capacity_probes': {'quick': 2000, 'thorough': 30000}, 'c20_cancellations': {'quick': 400, 'thorough': 8000}, 'c20_multi_loop_cases': {'quick': 80, 'thorough': 1500}},
+          'generated caller sets (limit 1-3; scopes global / class (two instances of one class, a second class) / self (two instances); 2-9 callers with distinct arrival and body times; raising bodies; lax and non-lax with acquisition timeouts 0.05-50 s); cancellation of one caller at enumerated instants (waiting and running); successive event loops in one process reusing the semaphore names; monitors: in-progress count per scope key at every body entry, entry instant vs FIFO counting-semaphore reference, fate vs reference, black-box capacity probe after quiescence (limit fresh callers enter at once, one more waits), registry semaphore value',
+          'conservation monitor at the wrapped body + FIFO counting-semaphore reference model + capacity probe, with enumerated cancellation instants', [A_VT, 'arrival / duration / cancellation instants are pairwise distinct (no ties to arbitrate)', 'multiprocess scope is outside the property statement and not exercised']))
